@@ -10,7 +10,7 @@ no state between passes.
 import Pko.Lemmas.ObjectSet
 
 namespace Pko.Props.C04
-open Pko.Kube Pko.Model.Phase Pko.Model.ObjectSet
+open Pko.Kube Pko.Model.Phase Pko.Model.ObjectSet Pko.Model.Status
 
 abbrev RemoteTear := PhaseSpec → World → World × TRes
 
